@@ -294,6 +294,74 @@ func c17(r *Run) {
 			r.precedes("C17.R3:deal-after-unlock", "getters are executed outside the shard lock (Add never spins on user code)", worker, d, func(i ssa.Instruction) bool { return isCall(i, qunlock) }, nil, "q.unlock dominates deal()")
 		}
 	}
+	// the counter is settled only after the shard's getters were dealt with: Close waits for trigger==0, and that must mean
+	// "handled", not "taken"
+	{
+		_ = deal
+		for _, a := range findIns(worker, func(x ssa.Instruction) bool { return atomicOn(x, "Add", fTrigger) }) {
+			ss := &Search{Fn: worker, Stop: func(i ssa.Instruction) bool { return isCall(i, deal) }}
+			wit := ss.Find(startsAfter(findIns(worker, func(i ssa.Instruction) bool { return isCall(i, qunlock) })), isIns(a), false)
+			r.Visited += ss.Visited
+			r.obW("C17.R4:counter-settled-after-deal", "in the worker the trigger counter is decremented only after the shard that was just taken has been dealt with: Close returns when it sees trigger==0, which must mean that every getter added before was invoked", worker, a, wit, "deal() lies between taking the shard and AddInt32(&trigger, -n)")
+		}
+		// the buffer left in the shard is the worker's previous (already dealt) buffer, never the one it is about to walk
+		swapStores := findIns(worker, func(i ssa.Instruction) bool { return isStoreToField(i, "ShardQueue", "swap") })
+		for _, ins := range allIns(worker) {
+			st, ok := ins.(*ssa.Store)
+			if !ok {
+				continue
+			}
+			ia, ok := st.Addr.(*ssa.IndexAddr)
+			if !ok || !strings.HasSuffix(pathOf(ia.X), ".getters") {
+				continue
+			}
+			sl, ok := st.Val.(*ssa.Slice)
+			if !ok {
+				continue
+			}
+			ld, isLoad := sl.X.(*ssa.UnOp)
+			if !isLoad {
+				continue
+			}
+			if _, fromSwap := loadOfField(ld, "ShardQueue", "swap"); !fromSwap {
+				continue
+			}
+			ss := &Search{Fn: worker, Stop: func(i ssa.Instruction) bool { return isCall(i, qunlock) }}
+			wit := ss.Find(startsAfter(swapStores), isIns(ld), false)
+			r.Visited += ss.Visited
+			r.obW("C17.R3:shard-gets-the-spare-buffer", "the empty slice left in a drained shard is cut from the worker's spare buffer as it was before this swap - not from the buffer just taken out of the shard, which the worker is about to walk without the lock while Add appends into the shard", worker, ins, wit, "q.swap is read for the shard before q.swap is overwritten in the same critical section")
+		}
+	}
+	// every getter of a batch is invoked: the walk ends at the end of the batch, or after the connection was closed on an
+	// Append error - a getter that has nothing to send does not end it
+	{
+		isGetterCall := func(i ssa.Instruction) bool {
+			cc := callCommon(i)
+			return cc != nil && cc.StaticCallee() == nil && !cc.IsInvoke() && namedTypeName(cc.Value.Type()) == "WriterGetter"
+		}
+		endOfBatch := func(ifi *ssa.If, cond ssa.Value, branch bool) bool {
+			b, ok := cond.(*ssa.BinOp)
+			if !ok || b.Op != token.LSS || branch {
+				return false
+			}
+			c, ok := b.Y.(*ssa.Call)
+			if !ok {
+				return false
+			}
+			bi, ok := c.Call.Value.(*ssa.Builtin)
+			return ok && bi.Name() == "len" && len(deal.Params) > 1 && c.Call.Args[0] == deal.Params[1]
+		}
+		closes := func(i ssa.Instruction) bool {
+			cc := callCommon(i)
+			return cc != nil && cc.IsInvoke() && cc.Method.Name() == "Close"
+		}
+		for _, g := range findIns(deal, isGetterCall) {
+			ss := &Search{Fn: deal, Stop: closes, CutEdge: endOfBatch}
+			wit := ss.Find([]Start{After(g)}, nil, true)
+			r.Visited += ss.Visited
+			r.obW("C17.R3:batch-walk-is-complete", "deal() leaves its loop over the batch only at the end of the batch or after it closed the connection on an Append error: a getter that reports nothing to send (isNil) does not drop the getters queued behind it", deal, g, wit, "the only exits after a getter call are the end of the range and the Close() path")
+		}
+	}
 	// getters are invoked only by deal, once per element of its argument
 	for _, f := range w.Funcs {
 		for _, ins := range findIns(f, func(i ssa.Instruction) bool {
